@@ -9,6 +9,7 @@ From TS Require Import Model.Lang.Common Model.Collect Model.MultiFile Spec.C09M
 From TS Require Spec.C14Spec Proofs.C14Main Proofs.C14Front Proofs.C14Witness Proofs.C09Multi Proofs.C09MultiWitness Proofs.C09MultiTS Proofs.C09MultiC14.
 From TS Require Import Spec.C09MultiLangSpec.
 From TS Require Spec.C14KotlinSpec Proofs.C12MultiStateless Proofs.C09MultiLang Proofs.C09MultiKotlin Proofs.C09MultiKotlinC14 Proofs.C09MultiLangWitness.
+From TS Require Proofs.C12MultiSwift Proofs.C12Multi Proofs.C09MultiSwift Proofs.C09MultiScala Proofs.C09MultiPython.
 Import ListNotations.
 From TS Require Props.C09.
 
@@ -467,3 +468,71 @@ Goal Proofs.C09MultiLangWitness.wl_dom Kotlin (lit "KP") Proofs.C09MultiLangWitn
   | Some t => contains_sub (lit "data class KPX2 (") t | None => false end = true.
 Proof. exact Props.C09.C09_multi_emitted_generic_refuted. Qed.
 Print Assumptions Props.C09.C09_multi_emitted_generic_refuted.
+Goal forall (L : lang) (fd : file_decls), c09_observe L fd = c9m_observe_decls L (fd_decls fd).
+Proof. exact Props.C09.C09_multi_observe_decls. Qed.
+Print Assumptions Props.C09.C09_multi_observe_decls.
+Goal forall (uc : unicode) (cfg : sw_config) (ho : list imported -> list imported) (arrivals : list (str * parsed)),
+    Proofs.C14Front.oracle_ok ho -> c9m_ids_wf arrivals = true ->
+    forall (b : str) (pd' : parsed), In (b, pd') (multi_crates ho arrivals) ->
+    forall (st : sw_state) (text : str) (st' : sw_state), sw_generate_multi uc cfg st pd' = Ok (text, st') ->
+    exists ds : list sw_decl,
+      Proofs.C12MultiSwift.sw_multi_decls uc cfg st pd' = Ok (ds, st') /\
+      text = (sw_begin_file cfg ++ List.concat (map sw_render_decl ds))%list /\
+      Forall (fun d => (c09_is_def d = true -> c9m_ldef_ok Swift arrivals b (sw_prefix cfg) (d_name d)) /\
+                       (forall r, In r (c09_decl_refs Swift d) -> c9m_lref_ok Swift arrivals b (sw_prefix cfg) r)) (flat_map sw_obs ds) /\
+      good_C09_multi Swift (sw_prefix cfg) arrivals b (c9m_observe_decls Swift (flat_map sw_obs ds)) = true.
+Proof. exact Props.C09.C09_multi_Swift. Qed.
+Print Assumptions Props.C09.C09_multi_Swift.
+Goal forall (uc : unicode) (cfg : sw_config) (pd' : parsed) (st : sw_state) (ds : list sw_decl) (st' : sw_state),
+    Proofs.C12MultiSwift.sw_multi_decls uc cfg st pd' = Ok (ds, st') ->
+    forall o, In o (flat_map sw_obs ds) -> Proofs.C09MultiLang.c9l_decl_ok Swift (sw_prefix cfg) pd' o.
+Proof. exact Props.C09.C09_multi_Swift_shape. Qed.
+Print Assumptions Props.C09.C09_multi_Swift_shape.
+Goal forall (uc : unicode) (cfg : sc_config) (ho : list imported -> list imported) (arrivals : list (str * parsed)),
+    Proofs.C14Front.oracle_ok ho -> c9m_ids_wf arrivals = true ->
+    forall (b : str) (pd' : parsed), In (b, pd') (multi_crates ho arrivals) ->
+    forall fd : file_decls, sc_file_decls uc cfg pd' = Ok fd ->
+      Forall (fun d => (c09_is_def d = true -> c9m_ldef_ok Scala arrivals b [] (d_name d)) /\
+                       (forall r, In r (c09_decl_refs Scala d) -> c9m_lref_ok Scala arrivals b [] r)) (fd_decls fd) /\
+      good_C09_multi Scala [] arrivals b (c09_observe Scala fd) = true.
+Proof. exact Props.C09.C09_multi_Scala. Qed.
+Print Assumptions Props.C09.C09_multi_Scala.
+Goal forall (uc : unicode) (cfg : sc_config) (pd' : parsed) (objs pkgs : list sc_decl), sc_decls uc cfg pd' = Ok (objs, pkgs) ->
+    forall o, In o (flat_map sc_obs (objs ++ pkgs)) -> Proofs.C09MultiLang.c9l_decl_ok Scala [] pd' o.
+Proof. exact Props.C09.C09_multi_Scala_shape. Qed.
+Print Assumptions Props.C09.C09_multi_Scala_shape.
+Goal forall (uc : unicode) (cfg : py_config) (ho : list imported -> list imported) (arrivals : list (str * parsed)),
+    Proofs.C14Front.oracle_ok ho -> c9m_ids_wf arrivals = true ->
+    forall (b : str) (pd' : parsed), In (b, pd') (multi_crates ho arrivals) ->
+    forall (st : py_state) (text : str) (st' : py_state), py_generate_multi uc cfg st pd' = Ok (text, st') ->
+    exists ds : list py_decl,
+      Proofs.C12Multi.py_multi_decls uc cfg st pd' = Ok (ds, st') /\
+      text = (py_begin_file cfg ++ py_write_all_imports st' ++ py_write_custom_translations st' ++ List.concat (map py_render_decl ds))%list /\
+      Forall (fun d => (c09_is_def d = true -> c9m_ldef_ok Python arrivals b [] (d_name d)) /\
+                       (forall r, In r (c09_decl_refs Python d) -> c9m_lref_ok Python arrivals b [] r)) (flat_map py_obs ds) /\
+      good_C09_multi Python [] arrivals b (c9m_observe_decls Python (flat_map py_obs ds)) = true.
+Proof. exact Props.C09.C09_multi_Python. Qed.
+Print Assumptions Props.C09.C09_multi_Python.
+Goal forall (uc : unicode) (cfg : py_config) (pd' : parsed) (st : py_state) (ds : list py_decl) (st' : py_state),
+    Proofs.C12Multi.py_multi_decls uc cfg st pd' = Ok (ds, st') ->
+    forall o, In o (flat_map py_obs ds) -> Proofs.C09MultiLang.c9l_decl_ok Python [] pd' o.
+Proof. exact Props.C09.C09_multi_Python_shape. Qed.
+Print Assumptions Props.C09.C09_multi_Python_shape.
+Goal Proofs.C09MultiLangWitness.wl_dom Swift (lit "OP") Proofs.C09MultiLangWitness.ws_rich = Some (true, None) /\
+  Proofs.C09MultiLangWitness.wl_dom Scala [] Proofs.C09MultiLangWitness.ws_rich = Some (true, None) /\
+  Proofs.C09MultiLangWitness.wl_dom Python [] Proofs.C09MultiLangWitness.ws_rich = Some (true, None) /\
+  Proofs.C09MultiLangWitness.wl_sw (lit "OP") Proofs.C09MultiLangWitness.ws_rich Proofs.C14Witness.MY (lit "OPA2Renamed") (lit "OPA2") = Some (5, 13, true, false)%nat /\
+  Proofs.C09MultiLangWitness.wl_sw (lit "OP") Proofs.C09MultiLangWitness.ws_rich Proofs.C14Witness.MY (lit "T") (lit "OPT") = Some (5, 13, true, false)%nat /\
+  Proofs.C09MultiLangWitness.wl_sc Proofs.C09MultiLangWitness.ws_rich Proofs.C14Witness.MY (lit "A2Renamed") (lit "A2") = Some (5, 16, true, false)%nat /\
+  Proofs.C09MultiLangWitness.wl_sc Proofs.C09MultiLangWitness.ws_rich Proofs.C14Witness.MY (lit "E") (lit "E2") = Some (5, 16, true, false)%nat /\
+  Proofs.C09MultiLangWitness.wl_py Proofs.C09MultiLangWitness.ws_rich Proofs.C14Witness.MY (lit "A2Renamed") (lit "A2") = Some (5, 12, true, false)%nat /\
+  Proofs.C09MultiLangWitness.wl_py Proofs.C09MultiLangWitness.ws_rich Proofs.C14Witness.MY (lit "EVInner") (lit "EV") = Some (5, 12, true, false)%nat.
+Proof. exact Props.C09.C09_multi_Swift_Scala_Python_nonvacuous. Qed.
+Print Assumptions Props.C09.C09_multi_Swift_Scala_Python_nonvacuous.
+Goal Proofs.C09MultiLangWitness.wl_dom Kotlin [] Proofs.C09MultiLangWitness.ws_alias_renamed = Some (true, Some "C09-kotlin-alias"%string) /\
+  Proofs.C09MultiLangWitness.wl_dom Scala [] Proofs.C09MultiLangWitness.ws_alias_renamed = Some (true, Some "C09-scala-alias"%string) /\
+  Proofs.C09MultiLangWitness.wl_dom Go [] Proofs.C09MultiLangWitness.ws_alias_renamed = Some (true, Some "C09-go-alias"%string) /\
+  Proofs.C09MultiLangWitness.wl_dom Swift [] Proofs.C09MultiLangWitness.ws_alias_renamed = Some (true, None) /\
+  Proofs.C09MultiLangWitness.wl_dom Python [] Proofs.C09MultiLangWitness.ws_alias_renamed = Some (true, None).
+Proof. exact Props.C09.C09_multi_alias_classes. Qed.
+Print Assumptions Props.C09.C09_multi_alias_classes.
